@@ -144,7 +144,14 @@ class Roles:
         return self.memo('global_reach', lambda: self.reach(self.iter_driver))
 
     def task_wrapper_candidates(self) -> List[FuncInfo]:
-        return [e for e in self.evaluators if self.fq(e) in self.global_reach]
+        # a private helper the wrapper was split into (`_Evaluate`) stands for the routine it was extracted from
+        out = []
+        for e in self.evaluators:
+            if self.fq(e) in self.global_reach:
+                l = self.lift(e)
+                if l not in out:
+                    out.append(l)
+        return out
 
     @property
     def task_wrapper(self) -> FuncInfo:
@@ -153,6 +160,11 @@ class Roles:
             return self._unique('task wrapper', cands,
                                 'caller of Problem.Calculate reachable from the iteration driver')
         return self.memo('task_wrapper', build)
+
+    def in_tw(self, f) -> bool:
+        """f is the task wrapper or a private helper it was split into."""
+        fam = self.memo('tw_family', lambda: set(self.helpers_of(self.task_wrapper)))
+        return f in fam
 
     @property
     def eval_routine(self) -> FuncInfo:
